@@ -14,7 +14,7 @@
 //!   reset:n   the first n octets of a GET, then a reset (RST)
 //!   getreset  a complete GET, then a reset without reading the response
 //!   idle      connects, sends nothing, closes after a pause
-//! obs: valid | invalid | truncated | closeearly | refused | absent
+//! obs: valid | validesc | invalid | truncated | closeearly | refused | absent
 //!
 //! Observation: what the client saw (`200` / `500` / `closed` = connection closed without a response / `timeout` /
 //! `-` for clients that do not read), then `alive` or `exited:<code>`, and `spin` if the process burns CPU while idle.
@@ -82,6 +82,16 @@ impl WedgeExec {
         rig.obs.clear();
         match obs {
             "valid" => rig.obs.push(ObsBehaviour::Serve(self.doc.clone())),
+            "validesc" => {
+                // a valid document whose strings need escaping in a label (line break, quote, backslash, tab, non-ASCII)
+                let mut v: serde_json::Value = serde_json::from_slice(&self.doc).unwrap_or(serde_json::Value::Null);
+                if let Some(p) = v.get_mut("program") {
+                    p["version"] = serde_json::Value::String("1.0\n\"beta\"".into());
+                    p["build_commit"] = serde_json::Value::String("a\\b\tc\u{e9}".into());
+                    p["build_commit_date"] = serde_json::Value::String("2024-01-01\n".into());
+                }
+                rig.obs.push(ObsBehaviour::Serve(serde_json::to_vec(&v).unwrap_or_else(|_| self.doc.clone())));
+            }
             "invalid" => rig.obs.push(ObsBehaviour::Serve(b"{\"program\": 12, \"instance\": []}".to_vec())),
             "truncated" => rig.obs.push(ObsBehaviour::Serve(self.doc[..self.doc.len() / 2].to_vec())),
             "closeearly" => rig.obs.push(ObsBehaviour::CloseEarly),
@@ -305,7 +315,7 @@ pub fn random_client(rng: &Prng) -> String {
 }
 
 pub fn random_obs(rng: &Prng) -> &'static str {
-    *rng.pick(&["valid", "valid", "invalid", "truncated", "closeearly", "refused", "absent"])
+    *rng.pick(&["valid", "valid", "validesc", "invalid", "truncated", "closeearly", "refused", "absent"])
 }
 
 pub fn generate(out: &mut Out, rng: &Prng, thorough: bool, workdir: &Path) {
@@ -329,7 +339,7 @@ pub fn generate(out: &mut Out, rng: &Prng, thorough: bool, workdir: &Path) {
             let wellformed = line.strip_prefix("EXP c get ").or_else(|| line.strip_prefix("EXP c split:").and_then(|r| r.split_once(' ').map(|x| x.1)));
             if let Some(rest) = wellformed {
                 // a well-formed request (in one piece or two) is answered: with the data, or with an error status when there is none
-                let want = if rest == "valid" { "200" } else { "500" };
+                let want = if rest == "valid" || rest == "validesc" { "200" } else { "500" };
                 if !o.starts_with(want) && !o.contains("exited") {
                     out.oracle("C20", &format!("well-formed-request-gets-{}", o.split(' ').next().unwrap_or("")), &format!("{line} -> {o} (expected {want})"));
                 }
